@@ -89,13 +89,19 @@ type Manifest struct {
 type Aff struct {
 	Pkg      string   `json:"pkg"`
 	Versions []string `json:"versions"`
+	// Range, if set, is [fixed Y, introduced X]: a REDUNDANT OSV range whose events are listed in
+	// non-ascending order.  X is in Versions and Y is the next version of the package, so the
+	// range affects exactly X and changes no verdict; it only gives the library's event sort
+	// something to do (OSV prescribes no event order).
+	Range []string `json:"range,omitempty"`
 }
 
 // VulnSpec is one record of the simulated vulnerability database.
 type VulnSpec struct {
-	ID       string `json:"id"`
-	Affected []Aff  `json:"affected"`
-	Severity string `json:"severity,omitempty"` // "", "high", "low"
+	ID       string   `json:"id"`
+	Affected []Aff    `json:"affected"`
+	Severity string   `json:"severity,omitempty"` // "", "high", "low"
+	Aliases  []string `json:"aliases,omitempty"`  // OSV aliases (ids of other records)
 }
 
 // PkgLevel is a per-package upgrade level.
@@ -116,7 +122,10 @@ type Opts struct {
 	MaxDepth        int        `json:"max_depth"`
 	MinSeverity     float64    `json:"min_severity,omitempty"`
 	MavenManagement bool       `json:"maven_management,omitempty"`
-	IgnoreDev       bool       `json:"ignore_dev,omitempty"` // Update only
+	// ConfigFromStrings: build the upgrade.Config through upgrade.NewConfigFromStrings
+	// instead of Set/SetDefault.
+	ConfigFromStrings bool `json:"config_from_strings,omitempty"`
+	IgnoreDev         bool `json:"ignore_dev,omitempty"` // Update only
 }
 
 // World is the generated input: ecosystem, universe, project, vulnerability database, options.
@@ -186,6 +195,14 @@ func parseLevel(s string) upgrade.Level {
 }
 
 func (o *Opts) upgradeConfig() upgrade.Config {
+	if o.ConfigFromStrings {
+		// the way a command-line caller builds it: "<default level>", "<package>:<level>", ...
+		ss := []string{o.Default}
+		for _, l := range o.Levels {
+			ss = append(ss, l.Pkg+":"+l.Level)
+		}
+		return upgrade.NewConfigFromStrings(ss)
+	}
 	c := upgrade.NewConfig()
 	c.SetDefault(parseLevel(o.Default))
 	for _, l := range o.Levels {
@@ -268,12 +285,16 @@ const (
 func (w *World) osv() []*osvschema.Vulnerability {
 	var out []*osvschema.Vulnerability
 	for _, v := range w.Vulns {
-		o := &osvschema.Vulnerability{ID: v.ID}
+		o := &osvschema.Vulnerability{ID: v.ID, Aliases: append([]string(nil), v.Aliases...)}
 		for _, a := range v.Affected {
-			o.Affected = append(o.Affected, osvschema.Affected{
+			oa := osvschema.Affected{
 				Package:  osvschema.Package{Ecosystem: w.ecosystem(), Name: a.Pkg},
 				Versions: append([]string(nil), a.Versions...),
-			})
+			}
+			if len(a.Range) == 2 {
+				oa.Ranges = []osvschema.Range{{Type: osvschema.RangeEcosystem, Events: []osvschema.Event{{Fixed: a.Range[0]}, {Introduced: a.Range[1]}}}}
+			}
+			o.Affected = append(o.Affected, oa)
 		}
 		switch v.Severity {
 		case "high":
@@ -471,9 +492,17 @@ func (w *World) describe() string {
 	for _, v := range w.Vulns {
 		var as []string
 		for _, a := range v.Affected {
-			as = append(as, a.Pkg+"@{"+strings.Join(a.Versions, ",")+"}")
+			r := ""
+			if len(a.Range) == 2 {
+				r = "+range[fixed " + a.Range[0] + ", introduced " + a.Range[1] + "]"
+			}
+			as = append(as, a.Pkg+"@{"+strings.Join(a.Versions, ",")+"}"+r)
 		}
-		vs = append(vs, v.ID+sevStr(v.Severity)+":"+strings.Join(as, "+"))
+		al := ""
+		if len(v.Aliases) > 0 {
+			al = "(alias " + strings.Join(v.Aliases, ",") + ")"
+		}
+		vs = append(vs, v.ID+al+sevStr(v.Severity)+":"+strings.Join(as, "+"))
 	}
 	ob, _ := json.Marshal(w.Opts)
 	ord := ""
